@@ -66,6 +66,59 @@ theorem refs_symm (occs : List Occ) (pos trav : Occ → Option Loc) (hag : ∀ o
   rw [← hag p hp, h1]; simp
 #print axioms refs_symm
 
+/-- … and transitive: a reference of a reference is a reference -/
+theorem refs_trans (occs : List Occ) (pos trav : Occ → Option Loc) (hag : ∀ o ∈ occs, pos o = trav o)
+    (p o q : Occ) (ho : o ∈ refs occs pos trav p) (hq : q ∈ refs occs pos trav o) : q ∈ refs occs pos trav p := by
+  have hoo := (List.mem_filter.mp ho).1
+  have h1 := refs_resolve_alike occs pos trav p o ho (hag o hoo)
+  unfold refs at hq ⊢
+  have hq' := List.mem_filter.mp hq
+  refine List.mem_filter.mpr ⟨hq'.1, ?_⟩
+  rw [← h1]; exact hq'.2
+#print axioms refs_trans
+
+/-- hence every member of a reference set has that very reference set: whichever occurrence of a variable the
+    user asks from, find-references answers with the same list (same order: the order of `occs`) -/
+theorem refs_class (occs : List Occ) (pos trav : Occ → Option Loc) (hag : ∀ o ∈ occs, pos o = trav o)
+    (p o : Occ) (ho : o ∈ refs occs pos trav p) : refs occs pos trav o = refs occs pos trav p := by
+  have hoo := (List.mem_filter.mp ho).1
+  have h1 := refs_resolve_alike occs pos trav p o ho (hag o hoo)
+  unfold refs
+  rw [h1]
+#print axioms refs_class
+
+/-- clause (iii) for workspaces of several files: highlight(p) is exactly the part of references(p) that lies in p's file -/
+theorem highlight_iff (occs : List Occ) (pos trav : Occ → Option Loc) (p o : Occ) (inFile : Occ → Bool) :
+    o ∈ (refs occs pos trav p).filter inFile ↔ o ∈ refs occs pos trav p ∧ inFile o = true := List.mem_filter
+#print axioms highlight_iff
+
+/-- computing the references per file and concatenating (what the server does: one traversal per file that can see the
+    symbol) gives the references of the whole workspace, file by file -/
+theorem refs_per_file (fa fb : List Occ) (pos trav : Occ → Option Loc) (p : Occ) :
+    refs (fa ++ fb) pos trav p = refs fa pos trav p ++ refs fb pos trav p := by
+  unfold refs; exact List.filter_append ..
+#print axioms refs_per_file
+
+/-- no occurrence is returned twice when the occurrence list has none twice -/
+theorem refs_nodup (occs : List Occ) (pos trav : Occ → Option Loc) (p : Occ) (h : occs.Nodup) :
+    (refs occs pos trav p).Nodup := by
+  unfold refs; exact h.filter _
+#print axioms refs_nodup
+
+/-- hover's clause: an occurrence is presented as a local exactly when its definition is a local declaration -/
+def hoverIsLocal (pos : Occ → Option Loc) (p : Occ) : Bool := (pos p).isSome
+
+theorem hover_local_iff (pos : Occ → Option Loc) (p : Occ) :
+    hoverIsLocal pos p = true ↔ ∃ d, pos p = some d := by
+  unfold hoverIsLocal; exact Option.isSome_iff_exists
+#print axioms hover_local_iff
+
+/-- and every reference of p is presented the same way as p where the resolutions agree -/
+theorem hover_same_on_refs (occs : List Occ) (pos trav : Occ → Option Loc) (p o : Occ)
+    (ho : o ∈ refs occs pos trav p) (hagree : pos o = trav o) : hoverIsLocal pos o = hoverIsLocal pos p := by
+  unfold hoverIsLocal; rw [refs_resolve_alike occs pos trav p o ho hagree]
+#print axioms hover_same_on_refs
+
 /-- the premises are satisfiable and the conclusion non-trivial: S-bind against itself on
     `local x = 1; print(x)`-like occurrence lists -/
 example :
